@@ -26,74 +26,7 @@ func runC02(p *core.Prog, r *core.Result) {
 	checkFingerprintDeterminism(p, r, "R2.1", true)
 
 	// ---- R2.2
-	sup := need(p, r, "R2.2", "", "sourceFile", "upToDate")
-	fileSum := need(p, r, "R2.2", "", "", "fileSum")
-	if sup != nil && fileSum != nil {
-		var sumCall *ssa.Call
-		for _, c := range core.CallsTo(sup, fileSum) {
-			sumCall, _ = c.(*ssa.Call)
-		}
-		n := 0
-		for i, ret := range core.ReturnsOf(sup) {
-			vals := core.RetVals(ret)
-			if len(vals) != 4 {
-				continue
-			}
-			b, ok := core.ConstBool(vals[0])
-			if !ok {
-				r.Unk("R2.2", fmt.Sprintf("dawn.(*sourceFile).upToDate#return-%d", i+1), p.InstrPos(ret), "non-constant verdict")
-				continue
-			}
-			if !core.IsNilConst(vals[3]) {
-				continue
-			}
-			n++
-			// equality fact between oldSum and the fresh sum
-			eqFact := func(want bool) bool {
-				return p.FactsAt(ret).Find(func(c ssa.Value, v bool) bool {
-					bo, ok := c.(*ssa.BinOp)
-					if !ok || (bo.Op != token.EQL && bo.Op != token.NEQ) {
-						return false
-					}
-					isOld := func(x ssa.Value) bool { return core.LoadOfField(x, pkgRoot, "sourceFile", "oldSum") }
-					isNew := func(x ssa.Value) bool {
-						if core.LoadOfField(x, pkgRoot, "sourceFile", "sum") {
-							return true
-						}
-						return sumCall != nil && x == extractOf(sumCall, 0)
-					}
-					if !(isOld(bo.X) && isNew(bo.Y) || isOld(bo.Y) && isNew(bo.X)) {
-						return false
-					}
-					return ((bo.Op == token.EQL) == v) == want
-				})
-			}
-			if b {
-				r.Check(eqFact(true), "R2.2", fmt.Sprintf("dawn.(*sourceFile).upToDate#true-%d", n), p.InstrPos(ret), "up to date exactly when the recorded sum equals the sum of the current contents", "a source can be reported up to date without its content sum matching the recorded one")
-			} else {
-				r.Check(eqFact(false), "R2.2", fmt.Sprintf("dawn.(*sourceFile).upToDate#false-%d", n), p.InstrPos(ret), "out of date exactly when the sums differ", "a source can be reported changed although its content sum equals the recorded one (e.g. on a timestamp-only touch)")
-			}
-		}
-		r.Floor("R2.2", n, 1, "verdicts of (*sourceFile).upToDate")
-		// the fresh sum is stored into f.sum before the comparison
-		if sumCall != nil {
-			stored := false
-			core.Instrs(sup, func(in ssa.Instruction) {
-				if st, ok := in.(*ssa.Store); ok && core.IsField(st.Addr, pkgRoot, "sourceFile", "sum") && st.Val == extractOf(sumCall, 0) {
-					stored = true
-				}
-			})
-			r.Check(stored, "R2.2", "dawn.(*sourceFile).upToDate#fresh-sum", p.InstrPos(sumCall), "the compared sum is the hash of the file's current contents", "the compared sum is not the freshly computed content hash")
-		}
-		// fileSum hashes contents: SHA256 over the opened file (or the directory sum)
-		okHash := false
-		for _, c := range core.Calls(fileSum) {
-			if cal := core.Callee(c); cal != nil && (cal.Name() == "SHA256" || cal.Name() == "dirSum") {
-				okHash = true
-			}
-		}
-		r.Check(okHash, "R2.2", "dawn.fileSum#content-hash", p.Pos(fileSum.Pos()), "fileSum hashes the file's bytes (or the directory's entries)", "fileSum does not hash the file's contents")
-	}
+	checkSourceCompare(p, r, "R2.2")
 
 	// ---- R2.3
 	checkLoadRewritesRead(p, r, "R2.3")
@@ -308,6 +241,121 @@ func checkLoadRewritesRead(p *core.Prog, r *core.Result, rule string) {
 				r.Check(known && !nn, rule, construct+":after-successful-read", p.InstrPos(c.(ssa.Instruction)), "written back only after a successful read", "a record can be rewritten although reading it failed (a corrupt record is replaced by an empty one and the target silently rebuilds or is treated as new)")
 			}
 		}
+	}
+
+}
+
+// checkSourceCompare: a source file is up to date exactly when its recorded content sum equals the hash of its
+// current contents, computed afresh by fileSum on every check (rule R2.2 under C02, R1.9 under C01).
+func checkSourceCompare(p *core.Prog, r *core.Result, rule string) {
+	sup := need(p, r, rule, "", "sourceFile", "upToDate")
+	fileSum := need(p, r, rule, "", "", "fileSum")
+	if sup != nil && fileSum != nil {
+		var sumCall *ssa.Call
+		for _, c := range core.CallsTo(sup, fileSum) {
+			sumCall, _ = c.(*ssa.Call)
+		}
+		n := 0
+		for i, ret := range core.ReturnsOf(sup) {
+			vals := core.RetVals(ret)
+			if len(vals) != 4 {
+				continue
+			}
+			b, ok := core.ConstBool(vals[0])
+			if !ok {
+				r.Unk(rule, fmt.Sprintf("dawn.(*sourceFile).upToDate#return-%d", i+1), p.InstrPos(ret), "non-constant verdict")
+				continue
+			}
+			if !core.IsNilConst(vals[3]) {
+				continue
+			}
+			n++
+			// equality fact between oldSum and the fresh sum
+			eqFact := func(want bool) bool {
+				return p.FactsAt(ret).Find(func(c ssa.Value, v bool) bool {
+					bo, ok := c.(*ssa.BinOp)
+					if !ok || (bo.Op != token.EQL && bo.Op != token.NEQ) {
+						return false
+					}
+					isOld := func(x ssa.Value) bool { return core.LoadOfField(x, pkgRoot, "sourceFile", "oldSum") }
+					isNew := func(x ssa.Value) bool {
+						if core.LoadOfField(x, pkgRoot, "sourceFile", "sum") {
+							return true
+						}
+						return sumCall != nil && x == extractOf(sumCall, 0)
+					}
+					if !(isOld(bo.X) && isNew(bo.Y) || isOld(bo.Y) && isNew(bo.X)) {
+						return false
+					}
+					return ((bo.Op == token.EQL) == v) == want
+				})
+			}
+			if b {
+				r.Check(eqFact(true), rule, fmt.Sprintf("dawn.(*sourceFile).upToDate#true-%d", n), p.InstrPos(ret), "up to date exactly when the recorded sum equals the sum of the current contents", "a source can be reported up to date without its content sum matching the recorded one")
+			} else {
+				r.Check(eqFact(false), rule, fmt.Sprintf("dawn.(*sourceFile).upToDate#false-%d", n), p.InstrPos(ret), "out of date exactly when the sums differ", "a source can be reported changed although its content sum equals the recorded one (e.g. on a timestamp-only touch)")
+			}
+		}
+		r.Floor(rule, n, 1, "verdicts of (*sourceFile).upToDate")
+		// the fresh sum is stored into f.sum before the comparison
+		// every value stored into f.sum in upToDate is the result of hashing the current contents: fileSum(path) itself,
+		// or a helper every successful return of which returns such a result computed during the call
+		var fresh func(v ssa.Value, depth int) bool
+		fresh = func(v ssa.Value, depth int) bool {
+			e, ok := v.(*ssa.Extract)
+			if !ok || e.Index != 0 {
+				return false
+			}
+			c, ok := e.Tuple.(*ssa.Call)
+			if !ok {
+				return false
+			}
+			cal := core.Callee(c)
+			if cal == fileSum {
+				return true
+			}
+			if cal == nil || !core.InModule(cal) || cal.Blocks == nil || depth > 2 {
+				return false
+			}
+			n := 0
+			for _, ret := range core.ReturnsOf(cal) {
+				rv := core.RetVals(ret)
+				if len(rv) != 2 {
+					return false
+				}
+				if nn, known := p.FactsAt(ret).ErrNonNil(rv[1]); known && nn {
+					continue
+				}
+				if !core.IsNilConst(rv[1]) {
+					if _, isE := rv[1].(*ssa.Extract); !isE {
+						return false
+					}
+				}
+				if !fresh(rv[0], depth+1) {
+					return false
+				}
+				n++
+			}
+			return n > 0
+		}
+		nStores := 0
+		core.Instrs(sup, func(in ssa.Instruction) {
+			st, ok := in.(*ssa.Store)
+			if !ok || !core.IsField(st.Addr, pkgRoot, "sourceFile", "sum") {
+				return
+			}
+			nStores++
+			r.Check(fresh(st.Val, 0), rule, fmt.Sprintf("dawn.(*sourceFile).upToDate#fresh-sum-%d", nStores), p.InstrPos(st), "the compared sum is the hash of the file's current contents, computed during this call", "the sum compared with the recorded one is not (always) a hash of the file's current contents computed now - e.g. it can come from a cache validated by size/modification time or kept across reloads: an edit that the shortcut does not see leaves dependents stale although the build reports success")
+		})
+		r.Floor(rule, nStores, 1, "stores of the fresh sum in (*sourceFile).upToDate")
+		// fileSum hashes contents: SHA256 over the opened file (or the directory sum)
+		okHash := false
+		for _, c := range core.Calls(fileSum) {
+			if cal := core.Callee(c); cal != nil && (cal.Name() == "SHA256" || cal.Name() == "dirSum") {
+				okHash = true
+			}
+		}
+		r.Check(okHash, rule, "dawn.fileSum#content-hash", p.Pos(fileSum.Pos()), "fileSum hashes the file's bytes (or the directory's entries)", "fileSum does not hash the file's contents")
 	}
 
 }
